@@ -5,6 +5,14 @@ V = os.path.dirname(os.path.dirname(os.path.abspath(__file__)))
 
 # id: (level, engine, technique, level text, level note, design section)
 CHECKS = {
+ "C09": ("fault_enumeration", "e1",
+  "exhaustive single-fault enumeration: every single-bit flip of every prev-hash, merkle-root and transaction byte of every block of small chains (plus block swaps, wrong genesis, --start offsets) injected into the stored data and run through the real binary with --verify; consistent chains of every small merkle-tree shape must pass",
+  "For 4-block chains with 1, 2 and 3 transactions per block every bit of every covered byte is flipped, one at a time, in the materialised blk file and the real binary is run with --verify: it must exit non-zero, leave no final-named file and name the corrupted height. 120 consistent chains (tx counts 1..17, 31..33, 64, 65; all 8 coins; --start 0..2; AuxPoW) must be accepted with model-equal output.",
+  "Trusted: SHA-256. A panic/abort caused by a flipped length field counts as rejection (counted separately). Not covered: multi-bit corruptions other than swaps; sibling blocks with the same parent (accepted by the statement's iff).", "6/C09"),
+ "C12": ("exploration", "e1",
+  "bounded-exhaustive enumeration of AuxPoW section shapes and block-version orders executed on the real binary with --verify and compared with a model that never sees the section",
+  "All 27 orders of below/at/above-threshold versions in 3-block namecoin and dogecoin chains, the full product of parent-coinbase form x branch lengths {0,1,2}^2 x masks, long-branch sweeps across the 0xfd boundary, and the six non-AuxPoW coins with versions around both thresholds: csvdump --verify must succeed and equal the model (hash over the 80-byte header, transaction list after the section).",
+  "Trusted: SHA-256, rusty-leveldb. Versions >= 2^31 not used (the code compares unsigned, Core signed; the statement only names the thresholds).", "6/C12"),
  "C01": ("exploration", "e1",
   "bounded-exhaustive enumeration of chain/transaction shapes (full product of a 256-shape alphabet, ordered shape pairs, CompactSize and integer boundary sweeps) executed on the real binary and compared byte-for-byte with an independent serialiser/hasher model",
   "Every world of the stated grammar is materialised (blk file + LevelDB index) and dumped by the binary built from the working tree; all four CSV files must equal the reference rendering byte for byte, file names and the completion totals included, with and without --verify.",
